@@ -406,7 +406,9 @@ func (h *harness) oracle(xs []pdf.Object, class string) {
 		if got != want {
 			sig := "roundtrip"
 			if known {
-				sig = "array-at-limit-ending-in-reference"
+				// the former finding array-at-limit-ending-in-reference (fixed): kept as a
+				// separate signature so that its return is named in the report
+				sig = "roundtrip-array-at-limit-ending-in-reference"
 			}
 			h.e.Fail(sig, fmt.Sprintf("parse(Format(opt=%d, xs)) != xs: text %q parses to %s, want %s", opt, t1, got, want),
 				map[string]any{"values": rawList(xs), "opt": int(opt), "text": hx(t1), "got": got, "want": want,
@@ -452,8 +454,7 @@ func (h *harness) objects(xs []pdf.Object, class string, nontrivial bool) {
 	h.oracle(xs, class)
 	inLimits := true
 	for _, x := range xs {
-		// the model's wf: the documented limits minus the known array edge
-		if !wf(x, h.L, 1) || arrayEdge(x, h.L) {
+		if !wf(x, h.L, 1) {
 			inLimits = false
 		}
 	}
